@@ -261,6 +261,56 @@ func runC07(c *Ctx) {
 		report("C07.K4 tie-break-table", FuncKey(tb)+" = duplicate ∧ slot(tip) < slot(new) ∧ ¬(tip received in its slot ∨ receive time unknown) ∧ new received in its slot", tb, ev, atoms, dis, err)
 	}
 
+	// ---- O5 the receive time follows the tip. The tie-break predicate asks whether *the tip* was
+	// received within its slot; Executer keeps that time in lastBlockReceived. A sync replaces the
+	// tip with blocks that have no receive time of their own (forkchoice reads nil as "received in
+	// time"): after the call that may replace the tip, every way to a return stores to
+	// lastBlockReceived, or goes through a test of whether the tip is still the block it was, and a
+	// nil is stored somewhere after the call.
+	{
+		isStore := func(in ssa.Instruction) (bool, bool) {
+			st, ok := in.(*ssa.Store)
+			if !ok {
+				return false, false
+			}
+			fa, ok := st.Addr.(*ssa.FieldAddr)
+			if !ok {
+				return false, false
+			}
+			o, stt := ownerOfFieldBase(fa.X.Type())
+			if o != "consensus.Executer" || stt == nil || fieldNameOf(stt.Field(fa.Field)) != "lastBlockReceived" {
+				return false, false
+			}
+			cst, isC := st.Val.(*ssa.Const)
+			return true, isC && cst.IsNil()
+		}
+		pf := factsOf(process)
+		n := 0
+		for _, sc := range CallsIn(process, "(*consensus/sync.Syncer).Sync") {
+			n++
+			nilStored := false
+			for _, b := range blocksDeep(process) {
+				for _, in := range b.Instrs {
+					if is, isNil := isStore(in); is && isNil && instrReachesAvoiding(sc.Call, in, nil) {
+						nilStored = true
+					}
+				}
+			}
+			path := reachesReturnAvoiding(sc.Call, func(in ssa.Instruction) bool {
+				if is, _ := isStore(in); is {
+					return true
+				}
+				if br, ok := in.(*ssa.If); ok {
+					t := pf.Term(br.Cond).String()
+					return strings.Contains(t, "LastBlock(") && strings.Contains(t, ".ID")
+				}
+				return false
+			}, nil)
+			c.Require("C07.O5 receive-time-follows-the-tip", FuncKey(process)+": after Sync", p.InstrPos(sc.Call), "after a sync (which may have replaced the tip, also when it failed) the remembered receive time is cleared unless the tip is still the same block", nilStored && path == nil, pathStr(path))
+		}
+		c.MinInstances("C07.O5 receive-time-follows-the-tip", n, 1)
+	}
+
 	// ---- K3 field predicates
 	type pred struct {
 		key  string
